@@ -3319,7 +3319,7 @@ class SchemaValidator:
                         continue
 
                     if thread_group_ref not in self._thread_groups:
-                        self._thread_groups[thread_group_ref] = ThreadGroup()
+                        self._thread_groups[thread_group_ref] = ThreadGroup(schema_id)
 
                     self._thread_groups[thread_group_ref].action_refs.append(action_ref)
 
